@@ -1,6 +1,7 @@
 CONSTANT Tier = "d0"
 CONSTANT Coerce = FALSE
 CONSTANT Deviations = {}
+CONSTANT SchemaGaps = {"flattened", "mapkeys", "discriminated"}
 SPECIFICATION Spec
 INVARIANT ResultShape
 INVARIANT LocsInData
